@@ -270,6 +270,31 @@ def sample_programs():
     return progs
 
 
+HASH_TEMPLATE_LINES = ["write(*,*) 'rhs evaluation #1'",
+                       "write(*,*) 'this is the right-hand side of the test problem, called for the', "
+                       "'(end of record #2 of the log)', ' and then some more text to make it wrap'",
+                       "${result} = -2*${y} ! see note #3"]
+
+
+def hash_in_user_text_program():
+    """A right-hand side whose Fortran template carries '#' inside character literals and a trailing comment (user
+    text: the generator copies it into the module).  -> (dag, registry, user type map)"""
+    import dagrt.codegen.fortran as f
+    from dagrt.function_registry import base_function_registry, register_ode_rhs
+    from dagrt.language import CodeBuilder, DAGCode
+    from pymbolic import var
+    with CodeBuilder("primary") as cb:
+        cb("k", "<func>f(<t>, <state>y)")
+        cb("<state>y", "<state>y + <dt>*k")
+        cb.yield_state("<state>y", "ytype", var("<t>"), "final")
+    dag = DAGCode.from_phases_list([cb.as_execution_phase("primary")], "primary")
+    freg = register_ode_rhs(base_function_registry, "ytype", identifier="<func>f", input_names=("y",))
+    freg = freg.register_codegen("<func>f", "fortran", f.CallCode("\n" + "\n".join(
+        "                " + ln for ln in HASH_TEMPLATE_LINES) + "\n                "))
+    utm = {"ytype": f.ArrayType((5,), f.BuiltinType("real*8"), index_vars="idx")}
+    return dag, freg, utm
+
+
 def check_emitted(rec, text, target, context, witness, mon=None):
     from vf.wrapmon import judge_emitted_pieces, judge_emitted_text
     if target != "fortran":
@@ -357,6 +382,37 @@ def run_generators(shard, rec):
                       rec.counters.get("wrap_contract_evaluations_fortran", 0) - before)
             mon.flush(rec, context="generator:" + name)
             rec.case(["generator-program", name])
+        # '#' in user text that is not a preprocessor line
+        try:
+            hdag, hreg, hutm = hash_in_user_text_program()
+            htext = f.CodeGenerator("m_hash", function_registry=hreg, user_type_map=hutm)(hdag)
+        except Exception as ex:
+            rec.violation(f"generator-raises-{type(ex).__name__}-while-emitting",
+                          f"[hash-in-user-text] {type(ex).__name__}: {ex}", {"sample": "hash-in-user-text"})
+        else:
+            check_emitted(rec, htext, "fortran", "hash-in-user-text", {"sample": "hash-in-user-text"})
+            joined = " ".join(x.strip().rstrip("&").strip() for x in htext.split("\n"))
+            for piece in ("'rhs evaluation #1'", "'(end of record #2 of the log)'", "! see note #3"):
+                rec.count("user_text_pieces_looked_up")
+                if piece not in joined:
+                    rec.violation("user-text-with-hash-altered-in-emitted-module",
+                                  f"{piece!r} does not come out of the generator as it went in",
+                                  {"sample": "hash-in-user-text"})
+                    break
+            bad = [ln for ln in htext.split("\n") if ln.startswith("#")]
+            if bad:
+                rec.violation("emitted-line-turned-into-preprocessor-line",
+                              f"no preprocessor line went in, these came out: {bad[:3]}",
+                              {"sample": "hash-in-user-text"})
+            if fort.have_gfortran():
+                with fort.Scratch("vf-c20-") as d:
+                    rc, out = fort.compile_(d, [("m.f90", htext)], exe="m.o", flags=["-fsyntax-only"])
+                rec.count("emitted_fortran_modules_syntax_checked")
+                if rc != 0:
+                    rec.violation("emitted-fortran-module-rejected-by-compiler",
+                                  f"[hash-in-user-text] gfortran -fsyntax-only: {out[-600:]}",
+                                  {"sample": "hash-in-user-text"})
+            rec.case(["generator-program", "hash-in-user-text"])
         # a user-type program (long names -> long lines)
         with CodeBuilder("primary") as cb:
             cb("y_with_quite_a_long_temporary_name", "<state>y")
